@@ -7,6 +7,7 @@ package jxpath
 import (
 	"errors"
 	"fmt"
+	"math"
 	"regexp"
 	"strconv"
 	"strings"
@@ -916,6 +917,12 @@ func countDigits(s string) int {
 }
 
 func pow10(n int) int {
+	// Powers of ten above 10^18 do not fit into an int: the
+	// loop below would overflow to zero (and take n steps to
+	// get there). Saturate instead.
+	if n > 18 {
+		return math.MaxInt64
+	}
 	val := 1
 	for i := 0; i < n; i++ {
 		val *= 10
